@@ -41,6 +41,7 @@ var buildConfigs = map[string]BuildConfig{
 // Ctx is the loaded program plus lazily built SSA and call graph.
 type Ctx struct {
 	minifyParent map[*ssa.Function]*ssa.Function
+	bangImpls    map[string]string
 	Repo   string
 	Config BuildConfig
 	Fset   *token.FileSet
